@@ -1560,6 +1560,20 @@ pub mod ty { #![deny(warnings)] #![allow(dead_code)] use educe::Educe;
   #[derive(Educe)] #[educe(Deref, DerefMut)]
   pub struct U<'a> { pub a: &'a u8 } }
 pub fn run(out: &mut Out) { out.check(true, "known_deref_mut_shared_ref_field", "compile", || String::new()); }'''),
+    'deref_trait_object_lifetime': ('C01', '''
+pub mod ty { #![deny(warnings)] #![allow(dead_code)] use educe::Educe;
+  pub trait Tr { fn v(&self) -> u8; }
+  impl Tr for u8 { fn v(&self) -> u8 { *self } }
+  #[derive(Educe)] #[educe(Deref)]
+  pub struct T<'a> { pub a: &'a dyn Tr } }
+pub fn run(out: &mut Out) { use ty::Tr; let v = 7u8; let t = ty::T { a: &v }; out.check((*t).v() == 7, "known_deref_trait_object_lifetime", "deref", || String::new()); }'''),
+    'deref_paren_target_unused_parens': ('C01', '''
+pub mod ty { #![deny(warnings)] #![allow(dead_code)] use educe::Educe;
+  pub trait Tr { fn v(&self) -> u8; }
+  impl Tr for u8 { fn v(&self) -> u8 { *self } }
+  #[derive(Educe)] #[educe(Deref)]
+  pub struct T<'a> { pub a: &'a (dyn Tr + Sync + 'a) } }
+pub fn run(out: &mut Out) { use ty::Tr; let v = 7u8; let t = ty::T { a: &v }; out.check((*t).v() == 7, "known_deref_paren_target_unused_parens", "deref", || String::new()); }'''),
     'into_reference_target_static': ('C10', '''
 pub mod ty { #![deny(warnings)] #![allow(dead_code)] use educe::Educe;
   #[derive(Educe)] #[educe(Into(&'a u8))]
